@@ -634,13 +634,25 @@ def st_residues(draw, tier, max_res, max_atoms, unique_atoms):
     res_id = draw(st_res_id_start())
     ins = ""
     polymer = draw(st.sampled_from([None, None, "pep", "nuc"]))
+    # numbering flavour: insertion-code runs (same res_id, codes A, B, ...) and descending numbering make
+    # residues that are *not* neighbours have res ids that differ by <= 1
+    numbering = draw(st.sampled_from(["normal", "normal", "normal", "ins_run", "descending"]))
+    steps = {
+        "normal": ["next", "next", "next", "next", "ins", "gap", "back", "chain", "chain_reset"],
+        "ins_run": ["ins", "ins", "ins", "next", "chain"],
+        "descending": ["back1", "back1", "back1", "ins", "next"],
+    }[numbering]
+    name = None
     for r in range(n_res):
+        prev_name = name
         if r > 0:
-            step = draw(st.sampled_from(["next", "next", "next", "next", "ins", "gap", "back", "chain", "chain_reset"]))
+            step = draw(st.sampled_from(steps))
             if step == "next":
                 res_id, ins = res_id + 1, ""
             elif step == "ins":
                 ins = draw(st.sampled_from("ABCZ19"))
+            elif step == "back1":
+                res_id, ins = res_id - 1, ""
             elif step == "gap":
                 res_id, ins = res_id + draw(st.integers(2, 50)), ""
             elif step == "back":
@@ -650,7 +662,9 @@ def st_residues(draw, tier, max_res, max_atoms, unique_atoms):
             else:
                 chain, res_id, ins = draw(st_awk(4)), draw(st_res_id_start()), ""
         res_id = max(-INT32_MAX, min(INT32_MAX, res_id))
-        if polymer == "pep" and draw(st.integers(0, 4)) > 0:
+        if numbering == "ins_run" and prev_name is not None and draw(st.booleans()):
+            name = prev_name  # same name, same res_id, only the insertion code differs
+        elif polymer == "pep" and draw(st.integers(0, 4)) > 0:
             name = draw(st.sampled_from(PEPTIDE_NAMES))
         elif polymer == "nuc" and draw(st.integers(0, 4)) > 0:
             name = draw(st.sampled_from(NUCLEIC_NAMES))
@@ -660,7 +674,10 @@ def st_residues(draw, tier, max_res, max_atoms, unique_atoms):
         tries = 0
         while key in used:
             # make the residue uniquely identifiable
-            res_id = res_id + 1 if res_id < INT32_MAX else -INT32_MAX + tries
+            if numbering == "ins_run" and tries < 20:
+                ins = "ABCDEFGHIJKLMNOPQRSTUVWXYZ"[(tries + len(used)) % 26]
+            else:
+                res_id = res_id + 1 if res_id < INT32_MAX else -INT32_MAX + tries
             key = (chain, res_id, ins)
             tries += 1
         used.add(key)
@@ -728,7 +745,7 @@ def st_bonds(draw, residues, narrowed):
             for k in range(s, e):
                 res_of[k] = ri
         for _ in range(draw(st.integers(0, 4))):
-            kind = draw(st.sampled_from(["any", "any", "backbone_like"]))
+            kind = draw(st.sampled_from(["any", "backbone_like"]))
             if kind == "backbone_like":
                 # C/O3' of one residue to N/P of another one (adjacent or not): what the writer may regard
                 # as a standard polymer link
@@ -736,12 +753,16 @@ def st_bonds(draw, residues, narrowed):
                 cand_j = [k for k in range(n) if fl["atom_name"][k] in ("N", "P")]
                 if not cand_i or not cand_j:
                     continue
-                i, j = draw(st.sampled_from(cand_i)), draw(st.sampled_from(cand_j))
+                i = draw(st.sampled_from(cand_i))
+                near = [k for k in cand_j if 0 < res_of[k] - res_of[i] <= 3]
+                j = draw(st.sampled_from(near)) if near and draw(st.booleans()) else draw(st.sampled_from(cand_j))
             else:
                 i, j = draw(st.integers(0, n - 1)), draw(st.integers(0, n - 1))
             if res_of[i] == res_of[j]:
                 continue
             t = draw(st.sampled_from(ALL_TYPES + [BT_SINGLE, BT_COORD, BT_COORD, BT_COORD, BT_SINGLE]))
+            if kind == "backbone_like" and draw(st.booleans()):
+                t = BT_SINGLE
             if t not in INTER_FAITHFUL and _open("C04-F1"):
                 narrowed.append("C04-F1")
                 t = BT_SINGLE
@@ -795,7 +816,7 @@ def st_extra(n):
 def _sizes(tier, small=False):
     if tier == "quick":
         return (4, 4) if small else (8, 6)
-    return (8, 6) if small else (40, 10)
+    return (8, 6) if small else (30, 10)
 
 
 def st_structure(tier, models=None, small=False, allow_bonds=True):
@@ -818,6 +839,8 @@ def st_structure(tier, models=None, small=False, allow_bonds=True):
             "cell": draw(st_cell()),
             "bonds": None,
             "write_intra": draw(st.integers(0, 5)) > 0,
+            # route struct_conn matching through the dictionary implementation used for large files
+            "dict_matching": draw(st.integers(0, 3)) == 0,
         }
         if case["coord_mode"] != "pdb":
             # explicit awkward values (denormal, 1e30, -0.0 ...) that shrink as values
@@ -931,6 +954,20 @@ def run_roundtrip(case):
     req = extra_field_request(w)
     m = case["models"]
     decoded = {}
+    import biotite.structure.io.pdbx.convert as _conv
+
+    threshold = _conv.FIND_MATCHES_SWITCH_THRESHOLD
+    if case.get("dict_matching") and has_bonds:
+        o.label("struct_conn_matching_by_dict")
+        _conv.FIND_MATCHES_SWITCH_THRESHOLD = -1
+    try:
+        _roundtrip_routes(o, case, fl, w, req, m, has_bonds, exp_bonds, decoded)
+    finally:
+        _conv.FIND_MATCHES_SWITCH_THRESHOLD = threshold
+    return o
+
+
+def _roundtrip_routes(o, case, fl, w, req, m, has_bonds, exp_bonds, decoded):
     with warnings.catch_warnings():
         warnings.simplefilter("ignore")
         arr = build_array(case, fl)
@@ -974,7 +1011,6 @@ def run_roundtrip(case):
             same_decoded(o, decoded["cif_ser"], decoded["bcif"], "cif_ser vs bcif")
         if "cif_ser" in decoded and "cif_io" in decoded:
             same_decoded(o, decoded["cif_ser"], decoded["cif_io"], "cif_ser vs cif_io")
-    return o
 
 
 def _report_bond_diff(o, tag, got, want):
